@@ -4,13 +4,22 @@
 package mustache
 
 // ---- rendering (C03: a rendering or an error, never a panic; C19: rendering writes nothing) ------------------------
+// "names matched case-insensitively": a key spelled exactly like the name wins; otherwise some key matches ignoring case iff
+// there is a result, and the result is the value of a matching key - whatever order the map is iterated in (the loop invariants
+// speak about the keys the iteration has produced so far, `visited`; when it ends every key has been produced)
 //@ func (c *MustacheTemplate) GetVariable
 //@   tags C03, C19
 //@   requires c != nil
+//@   ensures[C10] variables == nil || name == "" ==> result == nil
+//@   ensures[C10,C19] variables != nil && name != "" && haskey(variables, name) ==> result != nil && deref(result) == mapval(variables, name)
+//@   ensures[C10,C18] variables != nil && name != "" ==> (forall k string :: haskey(variables, k) && lower(k) == lower(name) ==> result != nil)
+//@   ensures[C10,C18] result != nil ==> (exists k string :: haskey(variables, k) && lower(k) == lower(name) && deref(result) == mapval(variables, k))
 //@   assigns nothing
 //@   nopanic
 //@   loop 0
-//@     invariant true
+//@     invariant variables == old(variables) && variables != nil && name == lower(old(name))
+//@     invariant forall k string :: visited(variables, k) && lower(k) == name ==> result != nil
+//@     invariant result != nil ==> haskey(variables, resultName) && lower(resultName) == name && deref(result) == mapval(variables, resultName)
 // "present and non-empty"
 //@ func (c *MustacheTemplate) isDefinedVariable
 //@   requires c != nil
